@@ -949,6 +949,12 @@ class REPEX_state:
                         # delete txt files
                         load_dir = self.config["simulation"]["load_dir"]
                         if self.config["output"].get("delete_old_all", False):
+                            # side files stored through 'keep_traj_fnames'
+                            for adress in del_dic["adress"]:
+                                base = os.path.splitext(adress)[0]
+                                for ext in self.pstore.keep_traj_fnames:
+                                    if os.path.isfile(base + ext):
+                                        os.remove(base + ext)
                             for txt in ("order.txt", "traj.txt", "energy.txt"):
                                 txt_adress = os.path.join(
                                     load_dir, pn_old_del, txt
